@@ -213,7 +213,8 @@ type runner struct {
 	nprobe   int
 	Reached  map[string]int
 	hangInfo string
-	exhibit  bool  // window yield points (W labels) and shape sentinels (X labels) park
+	exhibit  bool  // window yield points (W labels) park
+	xpark    bool  // shape sentinels (X labels) park
 	gcs      []int // thread ids of the GC passes started so far
 	pmu      sync.Mutex
 	passed   []passage // window yield points passed since the last report (comparison run)
@@ -474,10 +475,12 @@ func RunSchedule(sc *Schedule, w *bufio.Writer, wd *vhook.Watchdog, reached map[
 	// labels starting with "X" are sentinels (anchors.json): yield points that exist only because the code's shape deviates
 	// from the model's; labels starting with "W" are window yield points (always placed: a call has just returned and only
 	// thread-local work follows until the next model step). SCHED_XPARK=0 (comparison run) makes both transparent: the run is
-	// compared with the model at the model's own granularity, and every W passage is written down ("Y" lines). Otherwise
-	// (exhibit run) X labels park like every other label, W labels park until the schedule's "resume" item (asynchronous items
-	// in between) or are resumed at once when the schedule does not deal with them.
+	// compared with the model at the model's own granularity, and every W passage is written down ("Y" lines).
+	// SCHED_XPARK=w (exhibit run): W labels park until the schedule's "resume" item (asynchronous items in between) or are
+	// resumed at once when the schedule does not deal with them; X labels stay transparent (the run stays in step with the model).
+	// SCHED_XPARK=1: X labels park like every other label as well (a second thread-step where the model has one).
 	r.exhibit = os.Getenv("SCHED_XPARK") != "0"
+	r.xpark = r.exhibit && os.Getenv("SCHED_XPARK") != "w"
 	step := func(label string) {
 		if isWindow(label) && !r.exhibit {
 			r.s.Count(label)
@@ -488,7 +491,7 @@ func RunSchedule(sc *Schedule, w *bufio.Writer, wd *vhook.Watchdog, reached map[
 			}
 			return
 		}
-		if isSentinel(label) && !r.exhibit {
+		if isSentinel(label) && !r.xpark {
 			return
 		}
 		r.s.Step(label)
